@@ -56,6 +56,7 @@ def check(model, tier):
     sqlplace.r11_3_emission(ctx, rule="R02.18")  # what reaches the SELECT list / ORDER BY / DISTINCT of the emitted query  # an accepted tree must compile: refusing it is no SELECT at all
     sqlemit.r_anonymous_binds(ctx, "R02.15")
     sqlemit.r_flattened_predicate(ctx, "R02.17")
+    sqlemit.r_select_never_empty(ctx, "R02.19")
     from ..rules import rangesql as _rangesql
 
     _rangesql.r12_7_range_membership(ctx, rule="R02.13")
